@@ -332,6 +332,7 @@ class IcapServer:
         self.xacts = []          # finished and running transaction records, in order of first appearance
         self.problems = []       # malformed requests etc.
         self.options_seen = 0
+        self.n_conns = 0
 
     # ---- bookkeeping
     def begin_case(self):
@@ -365,7 +366,8 @@ class IcapServer:
     def step(self):
         progressed = False
         for c in self.l.accept_all():
-            self.conns.append(IcapConn(c, self.l.accepted - 1))
+            self.conns.append(IcapConn(c, self.n_conns))
+            self.n_conns += 1
             progressed = True
         for ic in self.conns:
             if ic.c.closed:
